@@ -39,6 +39,7 @@ type lnScen struct {
 	Frame0    int64   `json:"frame0"`
 	ValMode   string  `json:"valmode"` // id | extreme
 	VSeed     int64   `json:"vseed"`
+	StallAt   int     `json:"stallat"` // the block consumer pauses for four read periods after this block (0 = never): reads queue up behind it
 }
 
 type lnCard struct {
@@ -362,6 +363,9 @@ func (run *lnRun) execute() {
 		nblocks++
 		k := nblocks
 		mixMu.Unlock()
+		if sc.StallAt > 0 && k == sc.StallAt {
+			time.Sleep(4 * ls.readPeriod) // a slow consumer (disk stall, long request): the reader keeps reading meanwhile
+		}
 		data := make([][]int, len(b.segments))
 		first, dropped := int64(-1), 0
 		for c := range b.segments {
@@ -453,6 +457,9 @@ func lnRandom(rng *rand.Rand) lnScen {
 		if rng.Intn(3) == 0 {
 			sc.Mix = append(sc.Mix, lnMix{Ch: 2*i + 1, Num: []int{1, -1, 3, 8, -8, 64, 1}[rng.Intn(7)], Den: []int{1, 2, 2, 1, 1, 1, 4}[rng.Intn(7)]})
 		}
+	}
+	if rng.Intn(5) == 0 && len(sc.Reads) > 5 {
+		sc.StallAt = 1 + rng.Intn(2)
 	}
 	if rng.Intn(4) == 0 && len(sc.Reads) > 3 {
 		sc.MixAfter = 2 + rng.Intn(len(sc.Reads)-2)
